@@ -83,6 +83,15 @@ fn docs() -> Vec<Doc> {
         e("aa-call", "    pattern: qux($$$)\n"),
         e("zz-call", "    kind: string\n    inside:\n      stopBy: end\n      all:\n        - matches: aa-call\n        - kind: call_expression\n")])],
       tail: "".into(), class: "" },
+    // a local utility that shadows a global one, referred to from below a relational rule of another local utility:
+    // whichever of the two is built first, the reference means the LOCAL utility
+    Doc { head: "id: t8\nlanguage: TypeScript\nmessage: shadowed global\nrule:\n  matches: literal-call\n".into(),
+      maps: vec![("utils".into(), vec![
+        e("is-literal", "    kind: string\n"),
+        e("literal-call", "    kind: call_expression\n    has:\n      stopBy: end\n      matches: is-literal\n"),
+        e("aa-first", "    kind: number\n"),
+        e("zz-last", "    kind: call_expression\n    has:\n      stopBy: end\n      any:\n        - matches: is-literal\n        - kind: regex\n")])],
+      tail: "".into(), class: "" },
     Doc { head: "id: t7\nlanguage: TypeScript\nmessage: relational reference 2\nrule:\n  any:\n    - matches: zz-call\n    - matches: in-call\n".into(),
       maps: vec![("utils".into(), vec![
         e("in-call", "    kind: number\n    has:\n      stopBy: end\n      any:\n        - matches: log-call\n        - kind: new_expression\n"),
@@ -97,7 +106,9 @@ const SRC: &str = "foo(abc, 12);\nfoo(abd, 'x');\nf(x, x);\nf(x, y);\nbar([1, 's
 
 fn outcome(yaml: &str) -> Value {
   let r = catch_unwind(AssertUnwindSafe(|| {
-    let globals = GlobalRules::default();
+    // one global utility is always registered: a LOCAL utility of the same id shadows it (document t8)
+    let globals = ast_grep_config::from_str("id: is-literal\nlanguage: TypeScript\nrule:\n  kind: number\n").ok()
+      .and_then(|g| ast_grep_config::DeserializeEnv::<SupportLang>::parse_global_utils(vec![g]).ok()).unwrap_or_else(GlobalRules::default);
     let rules = match from_yaml_string::<SupportLang>(yaml, &globals) {
       Ok(r) => r,
       Err(e) => return json!({"load": "rejected", "error_class": format!("{e}").split(':').next().unwrap_or("").chars().take(40).collect::<String>()}),
@@ -297,7 +308,7 @@ pub fn run(o: &Opts) {
     std::fs::write(p.join("sgconfig.yml"), "ruleDirs: [rules]\ntestConfigs:\n  - testDir: tests\n").unwrap();
     for d in ds.iter().filter(|d| d.class.is_empty()) {
       let id = d.head.lines().next().unwrap().replace("id: ", "");
-      let invalid: Vec<&str> = match id.as_str() { "t1" => vec!["foo(abc, 12)", "foo(abx, 3)"], "t2" => vec!["qux(7, 'k', 8)"], "t3" => vec!["f(x, x)"], "t6" => vec!["console.log(1)"], "t7" => vec!["qux(7, 'k', 8)"], _ => vec!["bar([1, 's', 2], 3)"] };
+      let invalid: Vec<&str> = match id.as_str() { "t1" => vec!["foo(abc, 12)", "foo(abx, 3)"], "t2" => vec!["qux(7, 'k', 8)"], "t3" => vec!["f(x, x)"], "t6" => vec!["console.log(1)"], "t7" => vec!["qux(7, 'k', 8)"], "t8" => vec!["qux(7, 'k', 8)"], _ => vec!["bar([1, 's', 2], 3)"] };
       std::fs::write(p.join(format!("tests/{id}-test.yml")), format!("id: {id}\nvalid:\n  - \"nothing()\"\ninvalid:\n{}", invalid.iter().map(|s| format!("  - {}\n", serde_json::to_string(s).unwrap())).collect::<String>())).unwrap();
     }
     let snap = |p: &std::path::Path| -> BTreeMap<String, Vec<u8>> {
